@@ -516,6 +516,21 @@ func cmdConc(args []string) {
 			}
 		}
 	}
+	// the pre-processing step of keep-spec-order writes a re-ordered copy of its input: two inputs must never share that file
+	{
+		a, b := mk(0, "scratch"), mk(1, "scratch")
+		pa := generator.WithAutoXOrder(a.spec)
+		ca, _ := os.ReadFile(pa)
+		pb := generator.WithAutoXOrder(b.spec)
+		ca2, _ := os.ReadFile(pa)
+		evals++
+		if pa == pb || string(ca) != string(ca2) {
+			viols = append(viols, violation{Key: "c07/scratch-file-shared-between-inputs", What: "WithAutoXOrder (keep-spec-order) gives two different documents with the same base name the same scratch file: a generation running at the same time reads the other one's document",
+				Input: map[string]interface{}{"spec_a": a.spec, "spec_b": b.spec}, Detail: map[string]interface{}{"scratch_a": pa, "scratch_b": pb, "a_overwritten": string(ca) != string(ca2)}})
+		}
+		_ = os.RemoveAll(filepath.Dir(a.target))
+		_ = os.RemoveAll(filepath.Dir(b.target))
+	}
 	if viols == nil {
 		viols = []violation{}
 	}
